@@ -10,7 +10,15 @@ for f in sorted(glob.glob(os.path.join(V, "variants", "benign", "*.json"))):
         if sp.get("skip"):
             continue
         overlay, stale = {}, False
-        for ed in sp.get("edits", [sp]):
+        if sp.get("patch"):
+            sys.path.insert(0, os.path.join(V, "tools"))
+            import variants as _v
+            ov = _v.patched_files(repo, os.path.join(V, sp["patch"]))
+            if not ov:
+                print(f"{sp['name']}: STALE (patch does not apply)")
+                continue
+            overlay = ov
+        for ed in ([] if sp.get("patch") else sp.get("edits", [sp])):
             p = os.path.join(repo, ed["file"])
             s = overlay.get(p) or open(p).read()
             if ed["old"] not in s:
